@@ -21,6 +21,14 @@ CHECKS = {
     "C11": dict(engine="conc", design="5/C11", technique="TLA+ ShimConc micro-step model with MEASURED lock table (TLC, 2-3 threads, safety + liveness) + forced-overlap schedules under the race detector + TLC linearisation search (TraceLin) of concurrent batches",
         text="The lock mode of Server.mu during every upstream request of every operation is measured on the real code (TryLock/TryRLock probes while the proxy withholds the reply) and written into the ShimConc configuration; TLC checks table/wire mutual exclusion, own-reply and completion for all interleavings of 2 (quick) / 3 (thorough) threads over all operation kinds. Every ordered pair of operations is run with A suspended inside each of its upstream requests while B starts (race detector + frame-aware monitor on the single upstream connection + watchdog), and batches of 2..16 goroutines are recorded and TLC searches a sequential ordering of the ShimAgent design that explains every result and the final state.",
         note="verdicts come only from real-code observations (race report, overlapping frames, hang, batch without sequential explanation); a model counterexample that is not reproduced is exit 2; Prog (segment sequence per operation) is transcribed by reading, LockMode and raw/call are measured"),
+    "C06": dict(engine="attest", design="5/C06 and notes/attest.md", level="model_checking",
+        technique="explicit TLA+ decision model of EMSA-PKCS1-v1_5 verification + chain/label/key-type context (Attest.tla), TLC exhaustive over the full case product with sanity theorems, every exported case materialised on real RSA keys (harness-side EM^d mod N) and judged by TLC trace validation",
+        text="TLC enumerates the full product hashes x 2 DigestInfo layouts x every single mutation of the encoded message (every region, every octet class, shifted/shortened padding, prefix or digest of another hash) x 17 signature-algorithm labels x 9 chain relations x device key types (342 261 distinct states) and checks layout uniqueness, prefix-freeness, 'every mutation is invalid' and 'acceptance implies every clause of the statement'; every exported case is materialised on real RSA device keys of 1024/2048/3072 (thorough: 1536, 4096) bits - the harness owns the private key and computes EM^d mod N itself so any encoded message can be presented - and the verdict of (*Attestor).Attest is judged by TLC (TraceAttest) against Accept(case); random bit flips of signature/body, all labels, non-RSA device keys in direction B.",
+        note="decision-table property: TLC enumerates and judges; RSA arithmetic, hashing and X.509 minting are the harness's and Go's; labels 7..12 (DSA/ECDSA-with-SHA labels on an RSA key) are left open because the statement neither accepts nor rejects them; e = 65537 only"),
+    "C16": dict(engine="attest", design="5/C16 and notes/attest.md", level="exploration",
+        technique="TLC-enumerated certificate shapes / PEM bundles / serial-extension values (Attest.tla) minted by crypto/x509, differential comparison with crypto/x509.ParseCertificate, ModHex function and injectivity theorems checked by TLC, byte mutations for crash freedom; all recorded calls judged by TLC",
+        text="TLC enumerates certificate shapes (key type incl. RSA without the NULL parameter x signature algorithm x extension subsets x clean/trailing data), PEM bundles of 0..5 certificates with leading text / trailing whitespace / garbage, and serial-extension values of length 0..8, with the ModHex function and its injectivity on serial numbers as theorems; every shape is minted with crypto/x509 and parsed by both parsers (field-by-field equality recorded), every ModHex and PEM case executed, ~29 000 byte mutants for crash freedom; TLC judges every recorded call. Exploration level: the agreement with the standard parser is a differential oracle computed by the harness.",
+        note="ASN.1 fidelity is a differential oracle in the harness; TLC fixes the verdict class of every shape and computes the expected ModHex string from the recorded octets; shapes are those x509.CreateCertificate can emit"),
 }
 
 import re, glob
